@@ -137,6 +137,21 @@ def job_version(job):
                     confirmed = True
                     what = '%s [V%02d level %s forced mask %s, stream %s...]' % (mine[0], v + 1, iso.LEVELS[level], m, bytes(stream[:12]).hex())
                     break
+            if not confirmed and v <= 3:
+                # the model fixes the stub scores, which a native run computes itself: a behaviour that needs a particular
+                # relation between real scores (e.g. a tie) shows only for some streams - search small symbols natively
+                rs = random.Random(seed * 5 + v)
+                for t_ in range(500):
+                    st_ = [rs.randrange(256) for _ in range(len(stream))]
+                    lv_ = rs.randrange(4)
+                    mism, req = confirm_native(native, v, st_, lv_, forced)
+                    mine = [d for k, d in mism if PROP_OF_KIND.get(k, pid) == pid or k == 'panic' or (pid == 'C02' and k == 'data')
+                            or (pid == 'C08' and k in ('function', 'format', 'version', 'data'))]
+                    if mine:
+                        confirmed, m, stream, level = True, forced, st_, lv_
+                        what = '%s [V%02d level %s forced mask %s, stream %s...; witness %d of a native search after the symbolic failure of: %s]' % (
+                            mine[0], v + 1, iso.LEVELS[lv_], forced, bytes(st_[:12]).hex(), t_, lab[:70])
+                        break
             res['failures'].append({'key': '%s/matrix-stage' % pid, 'what': what, 'confirmed': confirmed,
                                     'obligation': lab,
                                     'replay': {'entry': 'place', 'version': v, 'level': level, 'mask': m if confirmed else forced,
@@ -156,7 +171,7 @@ def job_version(job):
         # translator validation: concrete (stream, level, forced mask) through native build, concrete interpreter
         # run and evaluation of the symbolic result
         qr = R['qr']
-        for t in range(nval):
+        for t in range(0 if any(f_.get('confirmed') for f_ in res['failures']) else nval):
             stream = [rnd.randrange(256) for _ in range(len(R['stream']))]
             if t == 1:
                 stream = [0] * len(stream)
@@ -189,6 +204,10 @@ def job_version(job):
                                             'what': '%s [V%02d level %s forced mask %s, stream %s...]' % (mine[0], v + 1, iso.LEVELS[level], mask, bytes(stream[:12]).hex()),
                                             'replay': {'entry': 'place', 'version': v, 'level': level, 'mask': mask, 'stream': bytes(stream).hex()}})
                     break
+                if mism:
+                    raise Inconclusive('the native build differs from the ISO symbol for V%02d (%s: %s) - a defect under another property (%s), '
+                                       'not decided here; the encoding could not be validated on this input' % (
+                                           v + 1, mism[0][0], mism[0][1][:80], PROP_OF_KIND.get(mism[0][0], '?')))
                 res['validation']['disagreements'] += 1
                 raise Inconclusive('translator validation failed for V%02d (stream %s..., level %d, mask %d)' % (v + 1, bytes(stream[:6]).hex(), level, mask))
         native.close()
